@@ -20,6 +20,8 @@ THEOREMS = [
     "Ts.ManifestOps.C07_witness_sharded_escaped_key",
     "Ts.ManifestOps.C07_containers",
     "Ts.ManifestOps.C07_saved_manifests_roundtrip",
+    # whole-job data plane (TsModel/World.lean; tied by C01's world_tie suite)
+    "Ts.World.C07_world_replicated_everywhere",
 ]
 BUDGET_S = (100, 840)
 RULE = ("synth: for (W, W') in 1..6 x 1..6, random per-rank state trees (depth <= 4; dict / OrderedDict / list; keys with "
@@ -985,6 +987,10 @@ def run(ctx: Ctx):
     _known_seen.clear()
     _corpus(ctx)
     _adversarial(ctx)
+    # whole-job tie of C07_world_replicated_everywhere (shared with C01)
+    from props import c01_world
+    for i in range(ctx.n(30, 400)):
+        c01_world.world_tie_case(ctx, c01_world.gen_world_case(ctx.rng), "world_tie")
     pairs = [(W, W2) for W in range(1, 7) for W2 in range(1, 7)]
     per_pair = ctx.n(4, 40)
     for i in range(per_pair):
@@ -1026,6 +1032,12 @@ def _strip_sharded(case):
 
 def replay(ctx: Ctx, rec):
     inp = rec["input"]
+    if "glob" in inp or "glob" in (inp.get("case") or {}):
+        from props import c01_world
+        c01_world.world_tie_case(ctx, inp.get("case") or inp, "replay")
+        for f in ctx.failures[:10]:
+            print("FAIL", f["sig"], f["what"], f["observed"])
+        return
     case = inp.get("case")
     if case is None:
         print("corpus / adversarial case: re-running the fixed streams")
